@@ -128,6 +128,7 @@ def build(net):
             opt = mod.End(b)
             opt_type = getattr(BOPT, modname)
         cust = vec("u8", o["custom_options"]) if o.get("custom_options") is not None else None
+        inter = vec("i32", o["intermediates"]) if o.get("intermediates") else None
         Operator.Start(b)
         Operator.AddOpcodeIndex(b, opcodes.index(key))
         Operator.AddInputs(b, ins)
@@ -137,6 +138,8 @@ def build(net):
             Operator.AddBuiltinOptions(b, opt)
         if cust is not None:
             Operator.AddCustomOptions(b, cust)
+        if inter is not None:
+            Operator.AddIntermediates(b, inter)
         ops.append(Operator.End(b))
 
     tv = vec("off", tens)
@@ -428,4 +431,337 @@ class Net:
             self.op("L2_NORMALIZATION", [x], [y], ["L2NormOptions", {"FusedActivationFunction": 0}])
         else:
             self.op(kind, [x], [y])
+        return y
+
+    # ---- generic operators added for the widened corpus (rank-agnostic; do not change the helpers above:
+    #      existing corpus entries must stay byte-identical) -------------------------------------------------
+    def like(self, x, name, shape=None, dt=None, scale=None, zp=None):
+        """a new feature map with the quantisation (and by default shape/type) of tensor x"""
+        src = self.t[x]
+        sc = src["scale"][0] if scale is None and src.get("scale") else scale
+        z = src["zp"][0] if zp is None and src.get("zp") else (zp or 0)
+        return self.fm(name, list(shape) if shape is not None else list(src["shape"]), dt or src["type"], sc, z)
+
+    def i32(self, name, values, shape=None, dt="INT32"):
+        values = list(values)
+        return self.const(name, [len(values)] if shape is None else shape, dt, data=values)
+
+    def conv2(self, x, oc, kh=3, kw=3, sh=1, sw=1, dh=1, dw=1, pad="SAME", act=0, name=None, oscale=0.07, ozp=-5,
+              groups=1, bias=True, per_channel=True):
+        """CONV_2D with independent kernel extents, strides and dilations per axis (and grouped convolution)"""
+        n, h, w, c = self.shape(x)
+        dt = self.t[x]["type"]
+        name = name or "conv%d" % len(self.o)
+        ns = oc if per_channel else 1
+        u8 = dt == "UINT8"
+        wt = self.const(name + "_w", [oc, kh, kw, c // groups], "UINT8" if u8 else "INT8", 0 if u8 else -127, 255 if u8 else 127,
+                        scale=[0.01 + 0.001 * (i % 7) for i in range(ns)], zp=[128 if u8 else 0] * ns,
+                        qdim=0 if per_channel else None)
+        ins = [x, wt]
+        if bias:
+            ins.append(self.const(name + "_b", [oc], "INT64" if dt == "INT16" else "INT32", -1000, 1000,
+                                  scale=[0.0005] * ns, zp=[0] * ns, qdim=0 if per_channel else None))
+        ekh, ekw = (kh - 1) * dh + 1, (kw - 1) * dw + 1
+        if pad == "SAME":
+            oh, ow = -(-h // sh), -(-w // sw)
+        else:
+            oh, ow = (h - ekh) // sh + 1, (w - ekw) // sw + 1
+        y = self.fm(name, [n, oh, ow, oc], dt, oscale, ozp if dt != "INT16" else 0)
+        self.op("CONV_2D", ins, [y], ["Conv2DOptions", {"Padding": 0 if pad == "SAME" else 1, "StrideW": sw, "StrideH": sh,
+                                                       "DilationWFactor": dw, "DilationHFactor": dh,
+                                                       "FusedActivationFunction": act}])
+        return y
+
+    def dwconv2(self, x, kh=3, kw=3, sh=1, sw=1, dh=1, dw=1, pad="SAME", act=0, name=None, mult=1):
+        n, h, w, c = self.shape(x)
+        dt = self.t[x]["type"]
+        name = name or "dw%d" % len(self.o)
+        oc = c * mult
+        u8 = dt == "UINT8"
+        wt = self.const(name + "_w", [1, kh, kw, oc], "UINT8" if u8 else "INT8", 0 if u8 else -127, 255 if u8 else 127,
+                        scale=[0.01] * oc, zp=[128 if u8 else 0] * oc, qdim=3)
+        bt = self.const(name + "_b", [oc], "INT64" if dt == "INT16" else "INT32", -100, 100, scale=[0.0005] * oc,
+                        zp=[0] * oc, qdim=0)
+        ekh, ekw = (kh - 1) * dh + 1, (kw - 1) * dw + 1
+        if pad == "SAME":
+            oh, ow = -(-h // sh), -(-w // sw)
+        else:
+            oh, ow = (h - ekh) // sh + 1, (w - ekw) // sw + 1
+        y = self.fm(name, [n, oh, ow, oc], dt, 0.1, 1 if dt != "INT16" else 0)
+        self.op("DEPTHWISE_CONV_2D", [x, wt, bt], [y],
+                ["DepthwiseConv2DOptions", {"Padding": 0 if pad == "SAME" else 1, "StrideW": sw, "StrideH": sh,
+                                            "DepthMultiplier": mult, "DilationWFactor": dw, "DilationHFactor": dh,
+                                            "FusedActivationFunction": act}])
+        return y
+
+    def pool2(self, x, kind="MAX_POOL_2D", kh=2, kw=2, sh=2, sw=2, pad="SAME", name=None, act=0):
+        n, h, w, c = self.shape(x)
+        name = name or "pool%d" % len(self.o)
+        if pad == "SAME":
+            oh, ow = -(-h // sh), -(-w // sw)
+        else:
+            oh, ow = (h - kh) // sh + 1, (w - kw) // sw + 1
+        y = self.like(x, name, [n, oh, ow, c])
+        self.op(kind, [x], [y], ["Pool2DOptions", {"Padding": 0 if pad == "SAME" else 1, "StrideW": sw, "StrideH": sh,
+                                                   "FilterWidth": kw, "FilterHeight": kh, "FusedActivationFunction": act}])
+        return y
+
+    def fc2(self, x, oc, name=None, act=0, keep_num_dims=False, bias=True, oscale=0.1):
+        """FULLY_CONNECTED on an input of any rank: [..., c] -> [prod(...), oc] (or [..., oc] with keep_num_dims)"""
+        shp = self.shape(x)
+        c = shp[-1]
+        dt = self.t[x]["type"]
+        name = name or "fc%d" % len(self.o)
+        u8 = dt == "UINT8"
+        wt = self.const(name + "_w", [oc, c], "UINT8" if u8 else "INT8", 0 if u8 else -127, 255 if u8 else 127,
+                        scale=[0.01], zp=[128 if u8 else 0])
+        ins = [x, wt]
+        if bias:
+            ins.append(self.const(name + "_b", [oc], "INT64" if dt == "INT16" else "INT32", -100, 100, scale=[0.0005], zp=[0]))
+        batch = 1
+        for d in shp[:-1]:
+            batch *= d
+        oshape = list(shp[:-1]) + [oc] if keep_num_dims else [batch, oc]
+        y = self.fm(name, oshape, dt, oscale, 0)
+        self.op("FULLY_CONNECTED", ins, [y], ["FullyConnectedOptions", {"FusedActivationFunction": act,
+                                                                       "KeepNumDims": bool(keep_num_dims)}])
+        return y
+
+    def binary(self, kind, a, b_, name=None, act=0, oscale=0.1, ozp=-1, odt=None):
+        """binary elementwise with numpy broadcasting of operands of any (possibly different) rank"""
+        name = name or "%s%d" % (kind.lower(), len(self.o))
+        sa, sb = list(self.shape(a)), list(self.shape(b_))
+        r = max(len(sa), len(sb))
+        pa, pb = [1] * (r - len(sa)) + sa, [1] * (r - len(sb)) + sb
+        shp = [max(p, q) for p, q in zip(pa, pb)]
+        dt = odt or self.t[a]["type"]
+        on = {"ADD": "AddOptions", "SUB": "SubOptions", "MUL": "MulOptions"}.get(kind)
+        if kind in ("MINIMUM", "MAXIMUM"):
+            y = self.like(a, name, shp)
+            self.op(kind, [a, b_], [y])
+        elif on:
+            y = self.fm(name, shp, dt, oscale, ozp if dt in ("INT8", "UINT8") else 0)
+            self.op(kind, [a, b_], [y], [on, {"FusedActivationFunction": act}])
+        else:                                   # SQUARED_DIFFERENCE, ...
+            y = self.fm(name, shp, dt, oscale, ozp if dt in ("INT8", "UINT8") else 0)
+            self.op(kind, [a, b_], [y])
+        return y
+
+    def act_op(self, kind, x, name=None, oscale=None, ozp=None, **kw):
+        """unary activation-like operator with explicit output quantisation (any data type)"""
+        name = name or "%s%d" % (kind.lower(), len(self.o))
+        y = self.like(x, name, scale=oscale, zp=ozp)
+        opts = None
+        if kind == "LEAKY_RELU":
+            opts = ["LeakyReluOptions", {"Alpha": kw.get("alpha", 0.1)}]
+        elif kind == "SOFTMAX":
+            opts = ["SoftmaxOptions", {"Beta": kw.get("beta", 1.0)}]
+        self.op(kind, [x], [y], opts)
+        return y
+
+    def quantize(self, x, dt, scale, zp, name=None):
+        name = name or "quantize%d" % len(self.o)
+        y = self.fm(name, self.shape(x), dt, scale, zp)
+        self.op("QUANTIZE", [x], [y])
+        return y
+
+    def argmax(self, x, axis=None, out="INT32", name=None):
+        name = name or "argmax%d" % len(self.o)
+        shp = list(self.shape(x))
+        axis = len(shp) - 1 if axis is None else axis
+        ax = self.const(name + "_axis", [], "INT32", data=[axis])
+        y = self.fm(name, shp[:axis] + shp[axis + 1:], out, None)
+        self.op("ARG_MAX", [x, ax], [y], ["ArgMaxOptions", {"OutputType": getattr(TT, out)}])
+        return y
+
+    def slice(self, x, begin, size, name=None):
+        name = name or "slice%d" % len(self.o)
+        b_ = self.i32(name + "_begin", begin)
+        s = self.i32(name + "_size", size)
+        shp = [d - bb if sz == -1 else sz for d, bb, sz in zip(self.shape(x), begin, size)]
+        y = self.like(x, name, shp)
+        self.op("SLICE", [x, b_, s], [y])
+        return y
+
+    def strided_slice(self, x, begin, end, strides=None, begin_mask=0, end_mask=0, shrink=0, new_axis=0, ellipsis=0,
+                      offset=False, name=None, oshape=None):
+        name = name or "sslice%d" % len(self.o)
+        strides = strides or [1] * len(begin)
+        ins = [x, self.i32(name + "_begin", begin), self.i32(name + "_end", end), self.i32(name + "_strides", strides)]
+        if oshape is None:
+            oshape = []
+            for i, d in enumerate(self.shape(x)):
+                b0 = 0 if begin_mask & (1 << i) else (begin[i] + d if begin[i] < 0 else begin[i])
+                e0 = d if end_mask & (1 << i) else (end[i] + d if end[i] < 0 else end[i])
+                if shrink & (1 << i):
+                    continue
+                oshape.append(max(0, -(-(e0 - b0) // strides[i])))
+        y = self.like(x, name, oshape)
+        self.op("STRIDED_SLICE", ins, [y], ["StridedSliceOptions", {"BeginMask": begin_mask, "EndMask": end_mask,
+                                                                   "EllipsisMask": ellipsis, "NewAxisMask": new_axis,
+                                                                   "ShrinkAxisMask": shrink, "Offset": bool(offset)}])
+        return y
+
+    def split_v(self, x, sizes, axis, name=None):
+        name = name or "splitv%d" % len(self.o)
+        st = self.i32(name + "_sizes", sizes)
+        ax = self.const(name + "_axis", [], "INT32", data=[axis])
+        d = self.shape(x)[axis]
+        known = sum(s for s in sizes if s >= 0)
+        ys = []
+        for i, s in enumerate(sizes):
+            shp = list(self.shape(x))
+            shp[axis] = d - known if s < 0 else s
+            ys.append(self.like(x, "%s_%d" % (name, i), shp))
+        self.op("SPLIT_V", [x, st, ax], ys, ["SplitVOptions", {"NumSplits": len(sizes)}])
+        return ys
+
+    def squeeze(self, x, dims, name=None):
+        name = name or "squeeze%d" % len(self.o)
+        y = self.like(x, name, [d for i, d in enumerate(self.shape(x)) if i not in dims])
+        self.op("SQUEEZE", [x], [y], ["SqueezeOptions", {"SqueezeDims": list(dims)}])
+        return y
+
+    def expand_dims(self, x, axis, name=None):
+        name = name or "expand%d" % len(self.o)
+        ax = self.const(name + "_axis", [], "INT32", data=[axis])
+        shp = list(self.shape(x))
+        shp.insert(axis if axis >= 0 else len(shp) + 1 + axis, 1)
+        y = self.like(x, name, shp)
+        self.op("EXPAND_DIMS", [x, ax], [y], ["ExpandDimsOptions", {}])
+        return y
+
+    def transpose(self, x, perm, name=None):
+        name = name or "transpose%d" % len(self.o)
+        p = self.i32(name + "_perm", perm)
+        y = self.like(x, name, [self.shape(x)[i] for i in perm])
+        self.op("TRANSPOSE", [x, p], [y], ["TransposeOptions", {}])
+        return y
+
+    def pack(self, xs, axis, name=None):
+        name = name or "pack%d" % len(self.o)
+        shp = list(self.shape(xs[0]))
+        shp.insert(axis, len(xs))
+        y = self.like(xs[0], name, shp)
+        self.op("PACK", list(xs), [y], ["PackOptions", {"ValuesCount": len(xs), "Axis": axis}])
+        return y
+
+    def unpack(self, x, axis, name=None):
+        name = name or "unpack%d" % len(self.o)
+        shp = list(self.shape(x))
+        num = shp.pop(axis)
+        ys = [self.like(x, "%s_%d" % (name, i), shp) for i in range(num)]
+        self.op("UNPACK", [x], ys, ["UnpackOptions", {"Num": num, "Axis": axis}])
+        return ys
+
+    def concat2(self, xs, axis, name=None, act=0):
+        name = name or "concat%d" % len(self.o)
+        shp = list(self.shape(xs[0]))
+        shp[axis] = sum(self.shape(x)[axis] for x in xs)
+        y = self.like(xs[0], name, shp)
+        self.op("CONCATENATION", list(xs), [y], ["ConcatenationOptions", {"Axis": axis, "FusedActivationFunction": act}])
+        return y
+
+    def split2(self, x, n, axis, name=None):
+        name = name or "split%d" % len(self.o)
+        ax = self.const(name + "_axis", [], "INT32", data=[axis])
+        shp = list(self.shape(x))
+        shp[axis] //= n
+        ys = [self.like(x, "%s_%d" % (name, i), shp) for i in range(n)]
+        self.op("SPLIT", [ax, x], ys, ["SplitOptions", {"NumSplits": n}])
+        return ys
+
+    def mean2(self, x, axes, keep=True, name=None, oscale=None, ozp=None):
+        name = name or "mean%d" % len(self.o)
+        ax = self.i32(name + "_axis", axes)
+        shp = [1 if i in axes else d for i, d in enumerate(self.shape(x))]
+        if not keep:
+            shp = [d for i, d in enumerate(self.shape(x)) if i not in axes]
+        y = self.like(x, name, shp, scale=oscale, zp=ozp)
+        self.op("MEAN", [x, ax], [y], ["ReducerOptions", {"KeepDims": bool(keep)}])
+        return y
+
+    def resize2(self, x, oh, ow, kind="RESIZE_BILINEAR", align=False, half=False, name=None):
+        n, h, w, c = self.shape(x)
+        name = name or "resize%d" % len(self.o)
+        sz = self.i32(name + "_size", [oh, ow])
+        y = self.like(x, name, [n, oh, ow, c])
+        on = "ResizeBilinearOptions" if kind == "RESIZE_BILINEAR" else "ResizeNearestNeighborOptions"
+        self.op(kind, [x, sz], [y], [on, {"AlignCorners": bool(align), "HalfPixelCenters": bool(half)}])
+        return y
+
+    def tconv2(self, x, oc, kh=3, kw=3, sh=2, sw=2, pad="SAME", name=None, bias=True):
+        n, h, w, c = self.shape(x)
+        name = name or "tconv%d" % len(self.o)
+        if pad == "SAME":
+            oh, ow = h * sh, w * sw
+        else:
+            oh, ow = (h - 1) * sh + kh, (w - 1) * sw + kw
+        osz = self.i32(name + "_oshape", [n, oh, ow, oc])
+        wt = self.const(name + "_w", [oc, kh, kw, c], "INT8", -127, 127, scale=[0.01] * oc, zp=[0] * oc, qdim=0)
+        ins = [osz, wt, x]
+        if bias:
+            ins.append(self.const(name + "_b", [oc], "INT32", -100, 100, scale=[0.0005] * oc, zp=[0] * oc, qdim=0))
+        y = self.fm(name, [n, oh, ow, oc], self.t[x]["type"], 0.1, 0)
+        self.op("TRANSPOSE_CONV", ins, [y],
+                ["TransposeConvOptions", {"Padding": 0 if pad == "SAME" else 1, "StrideW": sw, "StrideH": sh}])
+        return y
+
+    def pad2(self, x, pads, name=None, kind="PAD", dt="INT32"):
+        """PAD (rank-3 or rank-4 padding tensor) / MIRROR_PAD"""
+        name = name or "pad%d" % len(self.o)
+        p = self.const(name + "_p", [len(pads), 2], dt, data=[v for pr in pads for v in pr])
+        shp = [d + a + b_ for d, (a, b_) in zip(self.shape(x), pads)]
+        y = self.like(x, name, shp)
+        self.op(kind, [x, p], [y], ["MirrorPadOptions", {"Mode": 0}] if kind == "MIRROR_PAD" else None)
+        return y
+
+    def prelu(self, x, alphas=None, ashape=None, ascale=0.01, azp=0, name=None, oscale=None, ozp=None):
+        name = name or "prelu%d" % len(self.o)
+        c = self.shape(x)[-1]
+        ashape = ashape or [1, 1, c]
+        dt = self.t[x]["type"]
+        data = alphas if alphas is not None else None
+        lo, hi = (0, 255) if dt == "UINT8" else (-127, 127)
+        a = self.const(name + "_alpha", ashape, dt, lo, hi, scale=[ascale], zp=[azp], data=data)
+        y = self.like(x, name, scale=oscale, zp=ozp)
+        self.op("PRELU", [x, a], [y])
+        return y
+
+    def shape_op(self, x, name=None):
+        name = name or "shape%d" % len(self.o)
+        y = self.fm(name, [len(self.shape(x))], "INT32", None)
+        self.op("SHAPE", [x], [y], ["ShapeOptions", {"OutType": TT.INT32}])
+        return y
+
+    def lstm(self, x, n_cell, time_major=False, cell_clip=0.0, name=None):
+        """UNIDIRECTIONAL_SEQUENCE_LSTM (no CIFG / peephole / projection / layer normalisation): x is [batch, time, feature]
+        (or [time, batch, feature] when time_major); int8 activations, int16 cell state."""
+        name = name or "lstm%d" % len(self.o)
+        shp = self.shape(x)
+        nb = shp[1] if time_major else shp[0]
+        nf = shp[2]
+        dt = self.t[x]["type"]
+
+        def w(nm, cols):
+            return self.const("%s_%s" % (name, nm), [n_cell, cols], "INT8", -127, 127, scale=[0.01], zp=[0])
+
+        def bias(nm):
+            return self.const("%s_%s" % (name, nm), [n_cell], "INT32", -500, 500, scale=[0.0005], zp=[0])
+        ins = [x] + [w("i2" + g, nf) for g in "ifco"] + [w("r2" + g, n_cell) for g in "ifco"] + [-1, -1, -1]
+        ins += [bias("b" + g) for g in "ifco"] + [-1, -1]
+        out_state = self.fm(name + "_output_state", [nb, n_cell], dt, 1 / 128, 0)
+        cell_state = self.fm(name + "_cell_state", [nb, n_cell], "INT16", 2.0 ** -11, 0)
+        self.t[out_state]["is_variable"] = True
+        self.t[cell_state]["is_variable"] = True
+        ins += [out_state, cell_state, -1, -1, -1, -1]
+        inter = [self.fm("%s_inter%d" % (name, i), [1], "INT16" if i < 4 else dt, 2.0 ** -12 if i < 4 else 1 / 128, 0)
+                 for i in range(5)]
+        y = self.fm(name, list(shp[:2]) + [n_cell], dt, 1 / 128, 0)
+        self.op("UNIDIRECTIONAL_SEQUENCE_LSTM", ins, [y],
+                ["UnidirectionalSequenceLSTMOptions", {"FusedActivationFunction": 4, "CellClip": float(cell_clip),
+                                                       "ProjClip": 0.0, "TimeMajor": bool(time_major),
+                                                       "AsymmetricQuantizeInputs": False,
+                                                       "DiagonalRecurrentTensors": False}],
+                intermediates=inter)
         return y
